@@ -58,7 +58,9 @@ def run_case(darsia, rng, tid, c):
     opts["mobility_mode"] = getattr(darsia.MobilityMode, c["mob"])
     opts["return_info"] = True
     if c.get("adaptive"):
-        opts["bregman_update"] = lambda it: it % 3 == 2
+        # update schedule of the adaptive Bregman variant: every third iteration, every iteration, the odd ones (the run may
+        # end right after an update, or several iterations after the last one)
+        opts["bregman_update"] = {True: (lambda it: it % 3 == 2), "always": (lambda it: True), "odd": (lambda it: it % 2 == 1)}[c["adaptive"]]
     weight = None
     wflat = np.ones(int(np.prod(shape)))
     if c.get("weight") == "het":      # heterogeneous scalar cell weight in [0.5, 2]
@@ -93,6 +95,8 @@ def run_case(darsia, rng, tid, c):
         if i > 0 and in_loop_kw and "reuse_solver" not in k and post_fault:
             calls["post_injected"] = True
             raise InjectedFault("injected failure of the linear solve after the loop (pressure recovery)")
+        if i > 0 and in_loop_kw:
+            calls["post_rhs"] = np.array(a[1], dtype=float, copy=True)       # the last one is the Newton-step system of the pressure recovery
         if i > 0 and (not in_loop_kw or "reuse_solver" in k):
             calls["loop"] = calls.get("loop", 0) + 1
             if c["fault"] is not None and not post_fault and calls["loop"] - 1 == c["fault"]:
@@ -189,11 +193,27 @@ def run_case(darsia, rng, tid, c):
     cfe = exponent(float(np.abs(cf - cf_impl).max()) / max(1e-300, float(np.abs(cf).max()), 1e-12))
     td_impl = np.asarray(info["transport_density"]).ravel("F")
     tde = exponent(float(np.abs(td_impl - dens).max()) / max(1e-300, float(np.abs(dens).max()), 1e-12))
+    # the pressure output is the pressure block of the returned solution vector ...
+    p_out = np.asarray(info["pressure"], dtype=float).ravel("F")
+    nc_ = int(grid.num_cells)
+    pblk = exponent(float(np.abs(p_out - flat[nf:nf + nc_]).max()) / max(1.0, float(np.abs(p_out).max())))
+    # ... and, for Bregman, the potential of the Newton step around the RETURNED flux: the harness solves that system itself
+    # (matrix assembled by the library's own routine at the returned flux, dense solve; only when it is well conditioned -
+    # the pressure is not unique where the flux vanishes)
+    pnewt = -17
+    if c["method"] == "bregman" and "post_rhs" in calls and not (post_failed or calls.get("post_injected")):
+        try:
+            Jh = w1._update_regularization(uret)[0].toarray()
+            if np.linalg.cond(Jh) < 1e9:
+                ph = np.linalg.solve(Jh, calls["post_rhs"])[nf:nf + nc_]
+                pnewt = exponent(float(np.abs(ph - p_out).max()) / max(1e-12, float(np.abs(ph).max())))
+        except Exception:  # noqa
+            pnewt = -17
     pin = float(np.asarray(info["pressure"]).ravel("F")[int(w1.constrained_cell_flat_index)])
     pscale = max(1.0, float(np.abs(np.asarray(info["pressure"])).max()))
     ev.append(dict(base, op="end", raised=0, converged=int(bool(info["converged"])), critmet=int(critmet and not faulted),
                    retver=retver, dexp=exponent(drel), mbexp=mb(uret), linexp=lin(), pinexp=exponent(abs(pin) / pscale),
-                   cfexp=cfe, tdexp=tde, earlyexit=int(bool(np.isnan(dist))), niter=int(info["number_iterations"]), ncompleted=ncompleted))
+                   cfexp=cfe, tdexp=tde, pblkexp=pblk, pnewtexp=pnewt, earlyexit=int(bool(np.isnan(dist))), niter=int(info["number_iterations"]), ncompleted=ncompleted))
     if c.get("second"):
         # the same solver object is used again for another pair of masses: (1) what the first call returned is the caller's and
         # stays as it was, (2) the second result is what a fresh solver object returns for that pair
@@ -265,6 +285,12 @@ def configs(rng, quick, terminals):
                         "opts": {"num_iter": 6, "formulation": "pressure", "linear_solver": "direct", "L": 1.0 if method == "bregman" else 1e-2,
                                  "tol_residual": 0.0, "tol_increment": 0.0, "tol_distance": 0.0},
                         "mass": "dense", "mseed": 7, "fault": f, "adaptive": False, "weight": None})
+    # adaptive Bregman runs that end on / after an update of the regularization (pressure recovery around the returned flux)
+    for sched in ("always", "odd", True):
+        for (form, ls) in (("full", "direct"), ("pressure", "direct"), ("flux_reduced", "direct")):
+            out.append({"shape": [4, 3], "h": [0.5, 0.25], "method": "bregman", "l1": rng.choice(l1s), "mob": rng.choice(mobs),
+                        "opts": {"num_iter": rng.choice([4, 6]), "formulation": form, "linear_solver": ls, "L": 1.0, "tol_residual": 0.0, "tol_increment": 0.0, "tol_distance": 0.0},
+                        "mass": "dense", "mseed": rng.randrange(10 ** 6), "fault": None, "adaptive": sched, "weight": None})
     # weighted problems solved twice with one solver object (constant and heterogeneous cell weights)
     for method in ("newton", "bregman"):
         for wgt in (2.0, "het"):
